@@ -11,16 +11,19 @@ K  continuity ladders: the same function on a dense ladder of ratios around the 
    (second differences in the parameter) and a tight straddle of the switch.
 Q  ``TokamakEquilibrium`` built in-process for every topology x sigma x nx vector x
    psi_spacing_separatrix_multiplier x psi-range form, each together with its nx-doubled
-   twin, and a three-level nx ladder (8,16,32) for the smoothness clause.
+   twin, and a three-level nx ladder (32,64,128) for the smoothness clause.
 
 What is demanded, and where the tolerances come from, is documented next to each oracle.
 The *strict* clauses (strict monotonicity on the 64x oversampled index set, prescribed end
 gradient, vanishing second derivative) are demanded for ratios in [2^-5, 4]: through
 ``makeRegions`` the end gradient of a singly constrained segment is
-m * min_k(|dpsi_k|/nx_k), so its ratio is <= m*(1+nx_inter_sep/nx_pf), and the documented /
-shipped multipliers are m in [0.2, 2] with nx_inter_sep <= nx_pf; only equal gradients at
-both ends are reachable for the doubly constrained (inter-separatrix) segment.  Outside that
-range only "end values, and raises or is (weakly) monotone" is demanded.
+m * min_k(|dpsi_k|/nx_k), so its ratio is <= m (times (1+nx_inter_sep/nx_pf) for the secondary
+private-flux leg and |psi_sol-psi_sep0|/|psi_sol-psi_sep1| for the SOL of a disconnected
+double null, both typically < 2), and the documented / shipped multipliers are m in
+[0.2, 2]; only equal gradients at both ends are reachable for the doubly constrained
+(inter-separatrix) segment.  Lattice Q checks that bound on the real equilibria (the binding
+of lattice F to the code).  Outside that range only "end values, and raises or is (weakly)
+monotone" is demanded.
 """
 
 import contextlib
@@ -620,7 +623,8 @@ def run_eq_config(cfg):
     viol = []
     st = dict(builds=0, refused=0, nontrivial=0, segments=0, boundaries=0, boundaries_bitexact=0,
               joins=0, joins_bitexact=0, poloidal_joins=0, poloidal_joins_bitexact=0,
-              doubling_faces=0, doubling_unjudged=0, smooth_pairs=0, worst={}, refused_classes=[])
+              doubling_faces=0, doubling_unjudged=0, smooth_pairs=0, ratio_bindings=0, worst={},
+              refused_classes=[])
 
     def worst(key, val):
         if val == val and val > st["worst"].get(key, 0.0):
@@ -692,9 +696,41 @@ def run_eq_config(cfg):
                         est.setdefault((r["name"], k), []).append((wa, wb))
             x = np.array([1.0, 0.5, 0.25])
             vand = np.stack([np.ones(3), x**2, x**3], axis=1)
+            reg0 = {r["name"]: r for r in built[0][1]["regions"]}
+            exp0 = _expected_regions(cfg, built[0][0], built[0][1])
             for key, lst in est.items():
                 ga = float(np.linalg.solve(vand, np.array([t[0] for t in lst]))[0])
                 gb = float(np.linalg.solve(vand, np.array([t[1] for t in lst]))[0])
+                # binding of lattice F to the code: the strict clauses of the spacing function
+                # are demanded for ratios reachable through makeRegions, i.e. (separatrix
+                # spacing) <= multiplier * (average spacing of the singly constrained segment
+                # itself) - "factor modifying radial spacing at separatrices, <1 to make
+                # points closer".  Judged on the innermost and outermost segment (the
+                # secondary private-flux leg, whose first segment is only part of a spacing
+                # function, is skipped).  makeRegions measures the average SOL spacing from
+                # the primary separatrix even when the segment starts at the secondary one,
+                # hence the factor |limit - sep0|/|width| for the outermost segment.
+                pv0 = reg0[key[0]]["psi_vals"]
+                bnd = exp0[key[0]][0]
+                for seg, gest in ((key[1], ga), (key[1] + 1, gb)):
+                    if seg not in (0, len(pv0) - 1) or bnd[seg] is None or bnd[seg + 1] is None:
+                        continue
+                    nseg = (len(pv0[seg]) - 1) // 2
+                    width = pv0[seg][-1] - pv0[seg][0]
+                    ratio = gest * nseg / width
+                    bound = cfg["m"]
+                    if seg == len(pv0) - 1:
+                        bound *= abs(bnd[-1] - built[0][1]["psi_sep"][0]) / abs(width)
+                    st["ratio_bindings"] += 1
+                    worst("eq_end_gradient_ratio_excess_over_tolerance",
+                          max(ratio / bound - 1.0, 0.0) / SMOOTH_TOL)
+                    worst("eq_end_gradient_ratio", ratio)
+                    if not ratio <= bound * (1.0 + SMOOTH_TOL):
+                        viol.append(("eq | separatrix spacing exceeds multiplier x average spacing of "
+                                     "the segment (ratio outside the reachable range assumed by the "
+                                     "function-level lattice) | %s" % topo,
+                                     dict(region=key[0], segment=seg, ratio=ratio, bound=bound,
+                                          multiplier=cfg["m"])))
                 st["smooth_pairs"] += 1
                 rel = abs(ga - gb) / max(abs(ga), abs(gb))
                 worst("smooth_gradient_mismatch_over_tolerance", rel / SMOOTH_TOL)
@@ -800,7 +836,7 @@ def run(ctx):
             ctx.add("pure_eq_builds_refused_by_code", st["refused"])
             for k in ("segments", "boundaries", "boundaries_bitexact", "joins", "joins_bitexact",
                       "poloidal_joins", "poloidal_joins_bitexact", "doubling_faces",
-                      "doubling_unjudged", "smooth_pairs"):
+                      "doubling_unjudged", "smooth_pairs", "ratio_bindings"):
                 ctx.add("pure_eq_" + k, st[k])
             for k in st["refused_classes"]:
                 refused_classes["eq | " + k] = refused_classes.get("eq | " + k, 0) + 1
